@@ -14,9 +14,9 @@ and `used ⊆ provided`, for every `ParsedData`, every configuration and every p
 behind by the files generated earlier in the run (that covers multi-file mode).
 
 * Swift, Go, TypeScript, Scala, Python: the statement holds (`C12_swift`, `C12_go`,
-  `C12_typescript`, `C12_scala`, `C12_python`; Scala since the `fix:` commit c7871b1 made the
-  unsigned-integer scan recursive; Python since the `fix:` commits 614135b (generic aliases),
-  ab2f0e6 (`py-default-custom-fns`) and 062e77e (`py-mapped-datetime-import`): the class
+  `C12_typescript`, `C12_scala`, `C12_python`; Scala since the `fix:` commit 37c1b68 made the
+  unsigned-integer scan recursive; Python since the `fix:` commits f8d1040 (generic aliases),
+  0d6268d (`py-default-custom-fns`) and bfc37c3 (`py-mapped-datetime-import`): the class
   `Known_python` of the previous rounds is empty and gone).
 * Kotlin: it does not (`C12_not_full`, `kotlin_not_full`); the failing inputs are characterised
   exactly (`Known_kotlin`: no package configured) and the statement is proved for all others —
@@ -156,7 +156,7 @@ def Scala_full : Prop :=
 
 def scalaCfg : Lang.Scala.Cfg := { package := s%"com.example" }
 
-/-- **C12 for Scala** (a full theorem since the `fix:` commit c7871b1: `uses_unsigned` descends to
+/-- **C12 for Scala** (a full theorem since the `fix:` commit 37c1b68: `uses_unsigned` descends to
 any depth, under arrays, slices and generic arguments too) -/
 theorem C12_scala : Scala_full := by
   intro cfg d f hf hu
@@ -310,7 +310,7 @@ def Python_full : Prop :=
     (∃ body, text = Lang.Python.beginFile cfg ++ Lang.Python.writeAllImports st ++ Lang.Python.writeCustomFns st ++ body) ∧
     ∀ n ∈ Python.used E cfg d st, Python.Provides st n
 
-/-- **C12 for Python** (a full theorem since the `fix:` commits ab2f0e6 and 062e77e): every import,
+/-- **C12 for Python** (a full theorem since the `fix:` commits 0d6268d and bfc37c3): every import,
 every `TypeVar` and every translation function the text of a file uses — at any depth and position,
 for every type mapping, whatever printer state the earlier files of the run left behind — is in
 the state the header and the function block of the same file are written from -/
